@@ -131,10 +131,44 @@ def orefa_part(ctx):
     report_mismatches(ctx, mm, st, "OrefaFS differs from its Coq model (Fs/OrefaFS.v, about which C05_orefa_* / C07_orefa_* are proved) on %d generated histories")
 
 
+def xcheck_part(ctx):
+    """Re-evaluate a sample of the fs histories inside Coq (vm_compute) and compare with the extracted code."""
+    import os
+    from .. import coqxcheck
+    r = coqxcheck.run(ctx, os.path.join(ctx.dir, "fs.cases"), sample=(25 if ctx.tier == "quick" else 150))
+    if r is None:
+        return
+    n, fails = r
+    ctx.coverage["extraction_cross_check"] = {"histories_re_evaluated_inside_coq": n, "differences": len(fails)}
+    if fails:
+        ctx.broken("extraction-cross-check", "the extracted OCaml model and Coq's own evaluation (vm_compute) of World.wrun differ on sampled histories", str(fails)[:2000])
+
+
+def fs_corpus_part(ctx):
+    """Fixed witness histories (corpus/fs-witness.cases: MemFS and OrefaFS lines) replayed on implementation and model."""
+    import os
+    path = os.path.join(ROOT, "corpus", "fs-witness.cases")
+    if not os.path.exists(path):
+        return
+    lines = [l for l in open(path).read().splitlines() if l.strip() and not l.startswith("#")]
+    for fsname, cmd in (("memfs", "fs"), ("orefafs", "orefa")):
+        sel = [l for l in lines if l.startswith(fsname + " ")]
+        if not sel:
+            continue
+        st = {"name": cmd + "-corpus", "harness": cmd, "driver": cmd}
+        mm = ctx.stream(st["name"], cmd, cmd, replay_lines=sel)
+        if mm is None:
+            continue
+        ctx.coverage["streams"][st["name"]] = {"witness_histories": len(sel), "mismatches": len(mm)}
+        report_mismatches(ctx, mm, st, "the implementation differs from its Coq model on %d fixed witness histories (corpus/fs-witness.cases)", shrink=False)
+
+
 def check_C01(ctx):
     ctx.proofs()
     fs_part(ctx)
+    xcheck_part(ctx)
     fsbfs_part(ctx)
+    fs_corpus_part(ctx)
     orefa_part(ctx)
     oracle_part(ctx, "admin", "ofso", "OrefaFS deviates from Linux (key %s, %d histories) and the deviation is not a listed known finding",
                 fsname="orefafs", driver_cmd="ofso")
